@@ -562,3 +562,348 @@ Example parse_print_instance :
   wf_decl m = true /\ printable m = true /\ print m = s "a[i, :], b.c[j] -> q[i, j]"
   /\ wf_decl m0 = true /\ printable m0 = true /\ print m0 = s "... -> q[i]".
 Proof. vm_compute. repeat split. Qed.
+
+(* ========================================================================================== *)
+(* Whitespace insensitivity.  A spec may be written with arbitrary ASCII whitespace (other than a
+   newline inside the brackets, which the regex `.` does not cross) around every index, and with any
+   mixture of whitespace and commas between arrays, around "->" and around "...": it still parses to
+   the same MapSpec.  The layout is given explicitly; erasing it gives the parsed spec. *)
+
+Definition blank (c : ascii) : bool := is_space c && not_nl c.
+Definition sepchar (c : ascii) : bool := is_space c || Ascii.eqb c ","%char.
+
+Record saxis := { ax_l : str; ax_v : option str; ax_r : str }.
+Record sarr := { ar_sep : str; ar_name : str; ar_axes : list saxis }.
+Inductive sside := Dots (wl wr : str) | Arrays (l : list sarr) (tail : str).
+
+Definition pr_axis (d : saxis) : str := ax_l d ++ axis_str (ax_v d) ++ ax_r d.
+Definition pr_body (ds : list saxis) : str := join [","%char] (map pr_axis ds).
+Definition pr_arr (a : sarr) : str := ar_sep a ++ ar_name a ++ "["%char :: pr_body (ar_axes a) ++ ["]"%char].
+Definition pr_side (x : sside) : str :=
+  match x with
+  | Dots wl wr => wl ++ s "..." ++ wr
+  | Arrays l tail => concat (map pr_arr l) ++ tail
+  end.
+Definition pr_spaced (L R : sside) : str := pr_side L ++ s "->" ++ pr_side R.
+
+Definition er_arr (a : sarr) : aspec := {| aname := ar_name a; axes := map ax_v (ar_axes a) |}.
+Definition er_side (x : sside) : list aspec :=
+  match x with Dots _ _ => [] | Arrays l _ => map er_arr l end.
+
+Definition ok_axis (d : saxis) : bool := forallb blank (ax_l d) && forallb blank (ax_r d).
+Definition ok_arr (a : sarr) : bool := forallb sepchar (ar_sep a) && forallb ok_axis (ar_axes a).
+Definition ok_side (x : sside) : bool :=
+  match x with
+  | Dots wl wr => forallb is_space wl && forallb is_space wr
+  | Arrays l tail => negb (length l =? 0) && forallb ok_arr l && forallb sepchar tail
+  end.
+
+(* characters *)
+Lemma space_nonword c : is_space c = true -> is_word c = false.
+Proof. intros H. destruct (is_word c) eqn:E; [|reflexivity]. apply word_nospace in E. congruence. Qed.
+
+Lemma space_eqb_l c d : is_space c = true -> is_space d = false -> Ascii.eqb c d = false.
+Proof. intros Hc Hd. apply Ascii.eqb_neq. intros E. subst. congruence. Qed.
+
+Lemma space_nodash c : is_space c = true -> nodash c = true.
+Proof. intros H. unfold nodash. now rewrite (space_eqb_l c "-"%char H eq_refl). Qed.
+
+Lemma space_nocomma c : is_space c = true -> nocomma c = true.
+Proof. intros H. unfold nocomma. now rewrite Ascii.eqb_sym, (space_eqb_l c ","%char H eq_refl). Qed.
+
+Lemma blank_space c : blank c = true -> is_space c = true.
+Proof. unfold blank. intros H. now apply andb_true_iff in H as [H _]. Qed.
+
+Lemma blank_body_char c : blank c = true -> body_char c = true.
+Proof.
+  unfold blank, body_char. intros H. apply andb_true_iff in H as [Hs Hn].
+  now rewrite Hn, (space_eqb_l c "]"%char Hs eq_refl).
+Qed.
+
+Lemma sepchar_cases (p : ascii -> bool) c :
+  (forall c, is_space c = true -> p c = true) -> p ","%char = true -> sepchar c = true -> p c = true.
+Proof.
+  intros Hs Hc H. unfold sepchar in H. apply orb_true_iff in H as [H|H]; [now apply Hs|].
+  apply Ascii.eqb_eq in H. now subst.
+Qed.
+
+Lemma sepchar_nonword c : sepchar c = true -> nonword c = true.
+Proof.
+  apply sepchar_cases; [|reflexivity]. intros d Hd. unfold nonword. now rewrite space_nonword.
+Qed.
+
+(* strip of a padded token *)
+Lemma lstrip_spaces_app w y : forallb is_space w = true -> lstrip (w ++ y) = lstrip y.
+Proof.
+  induction w as [|c w IH]; [reflexivity|]. cbn [forallb app lstrip]. intros H.
+  apply andb_true_iff in H as [Hc Hw]. now rewrite Hc, IH.
+Qed.
+
+Lemma strip_pad wl x wr :
+  forallb is_space wl = true -> forallb is_space wr = true -> x <> [] -> forallb nospace x = true ->
+  strip (wl ++ x ++ wr) = x.
+Proof.
+  intros Hl Hr Hne Hx. unfold strip. rewrite (lstrip_spaces_app wl _ Hl).
+  assert (lstrip (x ++ wr) = x ++ wr) as ->.
+  { destruct x as [|c x]; [congruence|]. cbn [forallb] in Hx. apply andb_true_iff in Hx as [Hc _].
+    unfold nospace in Hc. apply negb_true_iff in Hc. cbn [app lstrip]. now rewrite Hc. }
+  rewrite rev_app_distr, lstrip_spaces_app by (now rewrite forallb_rev).
+  rewrite lstrip_nospace by (now rewrite forallb_rev). apply rev_involutive.
+Qed.
+
+Lemma axis_str_nospace ax : valid_axis ax = true -> forallb nospace (axis_str ax) = true.
+Proof. intros H. apply axis_str_chars; [exact word_nospace'|reflexivity|exact H]. Qed.
+
+Lemma parse_axis_spaced d : ok_axis d = true -> valid_axis (ax_v d) = true ->
+  parse_axis (pr_axis d) = ax_v d.
+Proof.
+  unfold ok_axis, pr_axis, parse_axis. intros Hd Hv. apply andb_true_iff in Hd as [Hl Hr].
+  rewrite strip_pad.
+  - destruct (ax_v d) as [i|]; cbn [axis_str valid_axis] in *; [|reflexivity].
+    change (s ":") with [":"%char]. now rewrite (ident_not_colon i Hv).
+  - exact (forallb_impl blank is_space _ blank_space Hl).
+  - exact (forallb_impl blank is_space _ blank_space Hr).
+  - now apply axis_str_nonempty.
+  - now apply axis_str_nospace.
+Qed.
+
+Lemma pr_axis_chars (p : ascii -> bool) d :
+  (forall c, is_word c = true -> p c = true) -> (forall c, blank c = true -> p c = true) ->
+  p ":"%char = true -> ok_axis d = true -> valid_axis (ax_v d) = true -> forallb p (pr_axis d) = true.
+Proof.
+  intros Hw Hs Hc Hd Hv. unfold ok_axis in Hd. apply andb_true_iff in Hd as [Hl Hr].
+  unfold pr_axis. rewrite !forallb_app, (axis_str_chars p _ Hw Hc Hv).
+  now rewrite (forallb_impl blank p (ax_l d) Hs Hl), (forallb_impl blank p (ax_r d) Hs Hr).
+Qed.
+
+Lemma pr_axis_nonempty d : valid_axis (ax_v d) = true -> pr_axis d <> [].
+Proof.
+  intros Hv E. unfold pr_axis in E. apply app_eq_nil in E as [_ E]. apply app_eq_nil in E as [E _].
+  now apply axis_str_nonempty in E.
+Qed.
+
+Lemma split_char_join1 x l :
+  (forall y, In y (x :: l) -> forallb nocomma y = true) ->
+  split_char ","%char (join [","%char] (x :: l)) = x :: l.
+Proof.
+  revert x. induction l as [|y l IH]; intros x H.
+  - cbn [join]. apply split_char_nosep. apply H. now left.
+  - change (join [","%char] (x :: y :: l)) with (x ++ ","%char :: join [","%char] (y :: l)).
+    rewrite split_char_app by (apply H; now left).
+    rewrite IH by (intros z Hz; apply H; now right). reflexivity.
+Qed.
+
+(* a spaced array whose erasure is well-formed of rank >= 1 *)
+Definition goodS (a : sarr) : bool := ok_arr a && good (er_arr a).
+
+Lemma goodS_parts a : goodS a = true ->
+  forallb sepchar (ar_sep a) = true /\ forallb ok_axis (ar_axes a) = true /\ valid_name (ar_name a) = true
+  /\ forallb (fun d => valid_axis (ax_v d)) (ar_axes a) = true /\ ar_axes a <> [].
+Proof.
+  unfold goodS, ok_arr, good, wf_aspec, er_arr. cbn [aname axes]. intros H.
+  apply andb_true_iff in H as [H1 H2]. apply andb_true_iff in H1 as [Hs Ho].
+  apply andb_true_iff in H2 as [H2 Hr]. apply andb_true_iff in H2 as [Hn Hv].
+  repeat split; auto.
+  - clear - Hv. induction (ar_axes a) as [|d l IH]; [reflexivity|]. cbn [map forallb] in *.
+    apply andb_true_iff in Hv as [H1 H2]. now rewrite H1, IH.
+  - intros E. rewrite E in Hr. discriminate Hr.
+Qed.
+
+Lemma parse_index_string_spaced a : goodS a = true ->
+  parse_index_string (pr_body (ar_axes a)) = map ax_v (ar_axes a).
+Proof.
+  intros H. destruct (goodS_parts a H) as (_ & Ho & _ & Hv & Hne).
+  destruct (ar_axes a) as [|d ds]; [congruence|]. clear Hne.
+  assert (forall x, In x (d :: ds) -> ok_axis x = true /\ valid_axis (ax_v x) = true) as Hin.
+  { intros x Hx. rewrite forallb_forall in Ho, Hv. split; [now apply Ho|now apply Hv]. }
+  unfold parse_index_string, pr_body. fold parse_axis. cbn [map].
+  rewrite split_char_join1.
+  2:{ intros y Hy. change (pr_axis d :: map pr_axis ds) with (map pr_axis (d :: ds)) in Hy.
+      apply in_map_iff in Hy as [z [<- Hz]]. destruct (Hin z Hz) as [Hz1 Hz2].
+      apply pr_axis_chars; auto; [exact word_nocomma|].
+      intros c Hc. apply space_nocomma. now apply blank_space. }
+  change (pr_axis d :: map pr_axis ds) with (map pr_axis (d :: ds)).
+  change (ax_v d :: map ax_v ds) with (map ax_v (d :: ds)). rewrite map_map.
+  apply map_ext_in. intros x Hx. destruct (Hin x Hx). now apply parse_axis_spaced.
+Qed.
+
+Lemma pr_body_ok a : goodS a = true ->
+  pr_body (ar_axes a) <> [] /\ forallb body_char (pr_body (ar_axes a)) = true.
+Proof.
+  intros H. destruct (goodS_parts a H) as (_ & Ho & _ & Hv & Hne).
+  assert (forall x, In x (ar_axes a) -> ok_axis x = true /\ valid_axis (ax_v x) = true) as Hin.
+  { intros x Hx. rewrite forallb_forall in Ho, Hv. split; [now apply Ho|now apply Hv]. }
+  split.
+  - unfold pr_body. destruct (ar_axes a) as [|d ds]; [congruence|]. cbn [map]. rewrite join_concat.
+    intros E. apply app_eq_nil in E as [E _]. revert E. apply pr_axis_nonempty.
+    apply Hin. now left.
+  - unfold pr_body. apply forallb_join; [reflexivity|]. intros x Hx.
+    apply in_map_iff in Hx as [z [<- Hz]]. destruct (Hin z Hz) as [Hz1 Hz2].
+    apply pr_axis_chars; auto; [exact word_body_char|exact blank_body_char].
+Qed.
+
+Definition stok (a : sarr) : str * str := (ar_name a, pr_body (ar_axes a)).
+(* the array without its leading separator *)
+Definition pr_arr0 (a : sarr) : str := ar_name a ++ "["%char :: pr_body (ar_axes a) ++ ["]"%char].
+
+Lemma pr_arr_eq a : pr_arr a = ar_sep a ++ pr_arr0 a.
+Proof. reflexivity. Qed.
+
+Lemma pr_arr0_nonempty a : pr_arr0 a <> [].
+Proof. unfold pr_arr0. destruct (ar_name a); discriminate. Qed.
+
+Lemma try_match_sarr a rest : goodS a = true ->
+  try_match (pr_arr0 a ++ rest) = Some (ar_name a, pr_body (ar_axes a), rest).
+Proof.
+  intros H. destruct (pr_body_ok a H) as [Hne Hb]. destruct (goodS_parts a H) as (_ & _ & Hn & _ & _).
+  unfold pr_arr0. rewrite <- !app_assoc. cbn [app]. rewrite <- !app_assoc. cbn [app].
+  now apply try_match_print.
+Qed.
+
+Lemma findall_sarrs tail : forallb nonword tail = true ->
+  forall l fuel, forallb goodS l = true -> length (concat (map pr_arr l) ++ tail) < fuel ->
+  findall fuel (concat (map pr_arr l) ++ tail) = map stok l.
+Proof.
+  intros Htail. induction l as [|a l IH]; intros fuel Hl Hf.
+  - cbn [map concat app]. now apply findall_nonword.
+  - cbn [forallb] in Hl. apply andb_true_iff in Hl as [Ha Hl].
+    destruct (goodS_parts a Ha) as (Hsep & _).
+    apply (forallb_impl sepchar nonword _ sepchar_nonword) in Hsep.
+    cbn [map concat] in *. rewrite pr_arr_eq, <- !app_assoc in *. rewrite !app_length in Hf.
+    replace fuel with (length (ar_sep a) + (fuel - length (ar_sep a))) by lia.
+    rewrite (findall_skip _ _ _ Hsep).
+    destruct (fuel - length (ar_sep a)) as [|f] eqn:Ef; [lia|].
+    cbn [findall]. rewrite (try_match_sarr a _ Ha).
+    destruct (pr_arr0 a ++ concat (map pr_arr l) ++ tail) eqn:Ep.
+    { apply app_eq_nil in Ep as [Ep _]. now apply pr_arr0_nonempty in Ep. }
+    cbn [map]. f_equal. apply IH; [assumption|]. rewrite app_length.
+    pose proof (pr_arr0_nonempty a) as Hne. destruct (pr_arr0 a); [congruence|]. cbn [length] in Hf. lia.
+Qed.
+
+Lemma mapM_stok l : forallb goodS l = true ->
+  mapM (fun nb => mk_aspec (fst nb) (parse_index_string (snd nb))) (map stok l) = Ok (map er_arr l).
+Proof.
+  induction l as [|a l IH]; intros H; [reflexivity|]. cbn [forallb] in H.
+  apply andb_true_iff in H as [Ha Hl]. cbn [map mapM]. change (stok a) with (ar_name a, pr_body (ar_axes a)).
+  cbn [fst snd]. rewrite (parse_index_string_spaced a Ha). unfold mk_aspec at 1.
+  pose proof Ha as Hw. unfold goodS in Hw. apply andb_true_iff in Hw as [_ Hw].
+  unfold good in Hw. apply andb_true_iff in Hw as [Hw _]. unfold wf_aspec, er_arr in Hw. cbn [aname axes] in Hw.
+  rewrite Hw. cbn [bind]. rewrite (IH Hl). reflexivity.
+Qed.
+
+Lemma pr_arr_brackets a :
+  mem_char "["%char (pr_arr a) = true /\ mem_char "]"%char (pr_arr a) = true.
+Proof.
+  unfold pr_arr. split.
+  - rewrite !mem_char_app. cbn [mem_char]. rewrite Ascii.eqb_refl. cbn [orb]. now rewrite !orb_true_r.
+  - rewrite !mem_char_app. cbn [mem_char]. rewrite mem_char_app. cbn [mem_char].
+    rewrite Ascii.eqb_refl. cbn [orb]. now rewrite !orb_true_r.
+Qed.
+
+Lemma parse_side_ok x : ok_side x = true -> forallb good (er_side x) = true ->
+  parse_indexed_arrays (pr_side x) = Ok (er_side x).
+Proof.
+  destruct x as [wl wr|l tail]; cbn [ok_side er_side pr_side]; intros Hok Hg.
+  - apply andb_true_iff in Hok as [Hl Hr]. unfold parse_indexed_arrays.
+    rewrite (strip_pad wl (s "...") wr Hl Hr); [reflexivity|discriminate|reflexivity].
+  - apply andb_true_iff in Hok as [Hok Htail]. apply andb_true_iff in Hok as [Hne Hok].
+    assert (forallb goodS l = true) as Hgs.
+    { unfold goodS. rewrite forallb_andb, Hok. cbn [andb]. clear - Hg.
+      induction l as [|a l IH]; [reflexivity|]. cbn [map forallb] in *.
+      apply andb_true_iff in Hg as [H1 H2]. now rewrite H1, IH. }
+    apply (forallb_impl sepchar nonword _ sepchar_nonword) in Htail.
+    destruct l as [|a l]; [discriminate|]. clear Hne.
+    set (x := concat (map pr_arr (a :: l)) ++ tail).
+    assert (forall c, mem_char c (pr_arr a) = true -> mem_char c x = true) as Hmem.
+    { intros c Hc. unfold x. cbn [map concat]. now rewrite !mem_char_app, Hc. }
+    destruct (pr_arr_brackets a) as [Hlb Hrb].
+    unfold parse_indexed_arrays.
+    destruct (str_eqb (strip x) (s "...")) eqn:E.
+    { exfalso. apply str_eqb_eq in E. pose proof (mem_char_strip "["%char x eq_refl) as Hs.
+      rewrite E, (Hmem _ Hlb) in Hs. discriminate Hs. }
+    rewrite (Hmem _ Hlb), (Hmem _ Hrb). cbn [negb orb].
+    unfold x. rewrite findall_sarrs by (auto; lia). now apply mapM_stok.
+Qed.
+
+Lemma pr_arr_nodash a : ok_arr a = true -> wf_aspec (er_arr a) = true -> forallb nodash (pr_arr a) = true.
+Proof.
+  unfold ok_arr, wf_aspec, er_arr. cbn [aname axes]. intros Ho Hw.
+  apply andb_true_iff in Ho as [Hs Ho]. apply andb_true_iff in Hw as [Hn Hv].
+  unfold pr_arr. rewrite !forallb_app. cbn [forallb]. rewrite forallb_app. cbn [forallb andb].
+  rewrite (forallb_impl sepchar nodash _ (fun c => sepchar_cases nodash c space_nodash eq_refl) Hs).
+  rewrite (valid_name_chars nodash _ word_nodash eq_refl Hn). cbn [andb]. rewrite andb_true_r.
+  unfold pr_body. apply forallb_join; [reflexivity|]. intros y Hy.
+  apply in_map_iff in Hy as [d [<- Hd]]. rewrite forallb_forall in Ho.
+  apply pr_axis_chars; [exact word_nodash| |reflexivity|now apply Ho|].
+  - intros c Hc. apply space_nodash. now apply blank_space.
+  - rewrite forallb_forall in Hv. apply Hv. now apply in_map.
+Qed.
+
+Lemma pr_side_nodash x : ok_side x = true -> forallb wf_aspec (er_side x) = true ->
+  forallb nodash (pr_side x) = true.
+Proof.
+  destruct x as [wl wr|l tail]; cbn [ok_side er_side pr_side]; intros Hok Hw.
+  - apply andb_true_iff in Hok as [Hl Hr]. rewrite !forallb_app.
+    now rewrite (forallb_impl is_space nodash _ space_nodash Hl), (forallb_impl is_space nodash _ space_nodash Hr).
+  - apply andb_true_iff in Hok as [Hok Htail]. apply andb_true_iff in Hok as [_ Hok].
+    rewrite forallb_app.
+    rewrite (forallb_impl sepchar nodash _ (fun c => sepchar_cases nodash c space_nodash eq_refl) Htail).
+    rewrite andb_true_r. clear Htail.
+    induction l as [|a l IH]; [reflexivity|]. cbn [map concat forallb] in *.
+    apply andb_true_iff in Hok as [Ha Hok]. apply andb_true_iff in Hw as [Hwa Hw].
+    now rewrite forallb_app, (pr_arr_nodash a Ha Hwa), IH.
+Qed.
+
+(* any admissible re-spacing of a well-formed spec parses to that spec *)
+Theorem parse_spaced L R :
+  ok_side L = true -> ok_side R = true ->
+  wf_decl {| ins := er_side L; outs := er_side R |} = true ->
+  printable {| ins := er_side L; outs := er_side R |} = true ->
+  parse (pr_spaced L R) = Ok {| ins := er_side L; outs := er_side R |}.
+Proof.
+  intros HL HR Hwf Hpr.
+  pose proof Hwf as Hwf'. unfold wf_decl in Hwf'. cbn [ins outs] in Hwf'.
+  apply andb_true_iff in Hwf' as [Hwf' _]. apply andb_true_iff in Hwf' as [Hwi Hwo].
+  unfold printable in Hpr. cbn [ins outs] in Hpr. rewrite forallb_app in Hpr.
+  apply andb_true_iff in Hpr as [Hpi Hpo].
+  assert (forallb good (er_side L) = true) as Hgi by (unfold good; now rewrite forallb_andb, Hwi, Hpi).
+  assert (forallb good (er_side R) = true) as Hgo by (unfold good; now rewrite forallb_andb, Hwo, Hpo).
+  unfold parse, pr_spaced. change (s "->") with ["-"%char; ">"%char]. cbn [app].
+  rewrite split_arrow_app by (now apply pr_side_nodash).
+  rewrite split_arrow_nodash by (now apply pr_side_nodash).
+  rewrite (parse_side_ok L HL Hgi), (parse_side_ok R HR Hgo). cbn [bind].
+  rewrite mk_mapspec_wf by assumption. now rewrite Hwf.
+Qed.
+
+(* whitespace insensitivity proper: two admissible spacings of the same spec parse alike *)
+Corollary parse_respaced L R L' R' :
+  ok_side L = true -> ok_side R = true -> ok_side L' = true -> ok_side R' = true ->
+  er_side L' = er_side L -> er_side R' = er_side R ->
+  wf_decl {| ins := er_side L; outs := er_side R |} = true ->
+  printable {| ins := er_side L; outs := er_side R |} = true ->
+  parse (pr_spaced L' R') = parse (pr_spaced L R).
+Proof.
+  intros HL HR HL' HR' EL ER Hwf Hpr.
+  rewrite (parse_spaced L R HL HR Hwf Hpr).
+  rewrite <- EL, <- ER in Hwf, Hpr |- *. now apply parse_spaced.
+Qed.
+
+(* the canonical printer is one of the admissible spacings (shown on an instance), and so are a dense
+   and a generously spaced rendering of the same spec *)
+Example parse_spaced_instance :
+  let ax l v r := {| ax_l := s l; ax_v := v; ax_r := s r |} in
+  let L := Arrays [ {| ar_sep := []; ar_name := s "a"; ar_axes := [ax ""%string (Some (s "i")) ""%string; ax " "%string None ""%string] |};
+                    {| ar_sep := s ", "; ar_name := s "b.c"; ar_axes := [ax ""%string (Some (s "j")) ""%string] |} ] (s " ") in
+  let R := Arrays [ {| ar_sep := s " "; ar_name := s "q"; ar_axes := [ax ""%string (Some (s "i")) ""%string; ax " "%string (Some (s "j")) ""%string] |} ] [] in
+  let L' := Arrays [ {| ar_sep := s "  "; ar_name := s "a"; ar_axes := [ax " "%string (Some (s "i")) "  "%string; ax ""%string None " "%string] |};
+                     {| ar_sep := s " ,"; ar_name := s "b.c"; ar_axes := [ax "  "%string (Some (s "j")) ""%string] |} ] [] in
+  let R' := Arrays [ {| ar_sep := []; ar_name := s "q"; ar_axes := [ax ""%string (Some (s "i")) ""%string; ax ""%string (Some (s "j")) " "%string] |} ] (s "  ") in
+  let m := {| ins := er_side L; outs := er_side R |} in
+  ok_side L = true /\ ok_side R = true /\ ok_side L' = true /\ ok_side R' = true
+  /\ wf_decl m = true /\ printable m = true
+  /\ pr_spaced L R = print m
+  /\ pr_spaced L R = s "a[i, :], b.c[j] -> q[i, j]"
+  /\ pr_spaced L' R' = s "  a[ i  ,: ] ,b.c[  j]->q[i,j ]  "
+  /\ er_side L' = er_side L /\ er_side R' = er_side R
+  /\ pr_spaced (Dots (s " ") []) R' = s " ...->q[i,j ]  ".
+Proof. vm_compute. repeat split. Qed.
